@@ -451,8 +451,12 @@ func check(p *propDef, tier string) int {
 		}
 	}
 	// a run whose harness phase (not a library call) outlasted the watchdog on the loaded machine is re-run alone
-	for _, o := range slow {
+	for i, o := range slow {
 		if haveNew || len(internal) > 0 {
+			break
+		}
+		if i >= 8 {
+			internal = append(internal, outcome{run: o.run, seed: o.seed, s: o.s, err: fmt.Errorf("%d runs were slow outside library calls; not re-running more than 8", len(slow))})
 			break
 		}
 		fmt.Printf("vsim: run seed=%d run=%d was slow outside any library call; re-running it alone with a 600 s limit\n", o.seed, o.run)
